@@ -10,3 +10,11 @@ Theorem model_crc_uses_them : forall d, crc_reg d = crc_fold (fst (fst (fst gen_
 Proof. reflexivity. Qed.
 Theorem model_step_uses_poly : forall c, step1 c = if N.odd c then N.lxor (N.shiftr c 1) (snd (fst gen_CRC)) else N.shiftr c 1.
 Proof. reflexivity. Qed.
+
+(* every RTU frame the code transmits is `slave, PDU, CRC(slave, PDU)`: the two RTU frame encoders regenerated from the source
+   have the model's normal form (the CRC is computed from the frame's own first byte, after slave id and PDU have been written) *)
+From TM Require Import Frame Pdu RtuCodec Tables TablesProofs.
+Theorem gen_rtu_client_frame_is_model : compile_frame gen_rtu_client_frame false false false = Some rtu_frame_toks.
+Proof. vm_compute. reflexivity. Qed.
+Theorem gen_rtu_server_frame_is_model : compile_frame gen_rtu_server_frame false false false = Some rtu_frame_toks.
+Proof. vm_compute. reflexivity. Qed.
